@@ -412,7 +412,9 @@ func (mr *msgReader) Read(p []byte) (n int, err error) {
 	defer mr.c.readMu.unlock()
 
 	n, err = mr.limitReader.Read(p)
-	if mr.flate && mr.flateContextTakeover() {
+	// mr.dict is nil once the connection has been closed, which can happen
+	// inside the Read above when a close frame arrives in the middle of a message.
+	if mr.flate && mr.flateContextTakeover() && mr.dict != nil {
 		p = p[:n]
 		mr.dict.write(p)
 	}
